@@ -156,8 +156,9 @@ class QvmEval(EvaluationContext):
         routine = self.find_routine_func(frame.code_start)
         if (lvalue.base_var in self.global_consts or lvalue.base_var in routine.local_consts) and \
            (lvalue.array_indices or lvalue.dotted_vars):
-            raise ValueError(
-                'Indices and dotted vars not valid with consts')
+            raise EvalError(
+                f'{lvalue.base_var} is a constant; it has no elements '
+                'or fields')
         elif lvalue.base_var in routine.local_consts:
             return routine.local_consts[lvalue.base_var].eval()
         elif lvalue.base_var in self.global_consts:
@@ -174,6 +175,10 @@ class QvmEval(EvaluationContext):
             cell_value = segment.get_cell(base_idx)
 
         if not base_type.is_array and not base_type.is_user_defined:
+            if lvalue.array_indices:
+                raise EvalError(f'{lvalue.base_var} is not an array')
+            if lvalue.dotted_vars:
+                raise EvalError(f'{lvalue.base_var} is not a record')
             if cell_value is None:
                 raise EvalError(
                     f'{lvalue.base_var} does not have a value yet')
